@@ -185,6 +185,45 @@ def weight_cases(rng, n, pcts=(100, 30, 50, 80), keep=40):
     return out
 
 
+HOSTBITS = ["192.0.2.200/24", "10.2.3.77/28", "198.51.100.129/25", "172.16.5.7/31", "100.127.255.255/10", "11.255.255.254/8"]
+HOSTBITS_EXCL = ["9.8.7.6/16", "2001:db8::1/32"]
+
+
+def has_host_bits(cidr):
+    i = ipaddress.ip_interface(cidr)
+    return i.ip != i.network.network_address
+
+
+def hostbits_cases(rng, per=6):
+    """the registrar's configuration WRITTEN AS TOML and decoded by the real path (BurntSushi toml -> Subnet /
+    Ipnet.UnmarshalText -> NewRegProcessorNoAuth), with CIDRs whose host bits are set in override_subnet and in
+    excluded_subnet_from_overrides: such a text denotes the network obtained by masking the written address.  One subnet
+    per configuration (so every override uses it), override percentage 100; the selected phantom alternates between an
+    address outside the exclusions (must be substituted, inside the denoted network) and one inside the host-bit
+    exclusion 9.8.7.6/16 (must be kept)."""
+    out = []
+    written = list(HOSTBITS)
+    while len(written) < len(HOSTBITS) + 2:      # random variation: any address / length with a host bit set
+        plen = rng.randrange(4, 31)
+        a = rng.randrange(1 << 24, 224 << 24) | (1 << rng.randrange(0, 32 - plen))
+        written.append("%s/%d" % (ipaddress.IPv4Address(a), plen))
+    for transport, tname in ((1, "Min_Transport"), (4, "Prefix_Transport")):
+        for w in written:
+            subs = [{"cidr": w, "weight": rng.choice([1, 2, 0.5]), "port": 443, "transport": tname, "prefix_id": 1}]
+            cfg = {"auth": False, "overrides": "none", "transports": [1, 4], "enforce": True, "subnets": subs,
+                   "exclusions": HOSTBITS_EXCL[:rng.choice([1, 2])], "pmin": 100, "pprefix": 100, "send_ok": True, "toml": True}
+            for j in range(per):
+                out.append({"kind": "bd", "group": None, "cfg": cfg,
+                            "sel": {"v4": "9.8.200.1" if j % 3 == 2 else "1.0.0.1", "rand4": True, "err4": False, "v6": "fd00::1", "rand6": True, "err6": False},
+                            "req": {"secret": bytes(rng.getrandbits(8) for _ in range(32)).hex(), "payload": True, "v4": True, "v6": j % 2 == 0,
+                                    "transport": transport, "params": {"kind": "prefix", "prefix_id": 1} if transport == 4 else {"kind": "generic"},
+                                    "disable_ov": None, "libver": 4, "gen": 1, "forged_resp": None, "forged_bytes": None, "forged_sig": None,
+                                    "source": None, "addr": None},
+                            "client_addr": "00000000000000000000ffffc6336401", "method": 4, "seed": rng.randrange(1, 1 << 31), "pre": "",
+                            "station": {"v4": True, "v6": True, "transports": [1, 4]}})
+    return out
+
+
 def seq_cases(rng, nseq, length, base_id):
     """sequences of bidirectional registrations on ONE processor (built once by the real constructor): the configured
     subnets the oracle uses are the generated ones, never read back from the processor"""
@@ -261,7 +300,8 @@ def gsubnet(s, scale):
     w = Fraction(s["weight"]) * scale
     assert w.denominator == 1
     if net.version == 4:
-        return "(mkSub true %s %s %s %s)" % (gN(int(net.network_address)), gN(net.prefixlen), gN(int(w)), gN(s["port"]))
+        # the model's parsing step (cidr_of_text) gets the address AS WRITTEN
+        return "(sub_of_text %s %s %s %s)" % (gN(int(ipaddress.ip_interface(s["cidr"]).ip)), gN(net.prefixlen), gN(int(w)), gN(s["port"]))
     return "(mkSub false 0 %s %s %s)" % (gN(net.prefixlen), gN(int(w)), gN(s["port"]))
 
 
@@ -465,7 +505,8 @@ def oracle(ctx, c, r):
     if substituted:
         ok = cfg["enforce"] and any(s["transport"] == tname and s["weight"] > 0 and in_net(s["cidr"], rv["v4"]) for s in cfg["subnets"])
         if not ok:
-            ctx.fail("override-outside-subnet", "the substituted phantom %s is not inside an override subnet (weight > 0) configured for %s: %s"
+            hb = any(s["transport"] == tname and has_host_bits(s["cidr"]) for s in cfg["subnets"])
+            ctx.fail("override-outside-subnet" + ("/host-bits" if hb else ""), "the substituted phantom %s is not inside an override subnet (weight > 0) configured for %s: %s"
                      % (ipaddress.IPv4Address(rv["v4"]), tname, short(c)), c)
         if q["transport"] == 4 and disabled:
             ctx.fail("override-when-disabled", "Prefix phantom/port/parameters substituted although the client disabled overrides: %s" % short(c), c)
@@ -495,7 +536,7 @@ def oracle(ctx, c, r):
                 ctx.fail(key, "a station ingesting the forwarded message ends up with %s: %s" % ("; ".join(bad), short(c)), c)
     if fe:
         return "%s/bd/ok" % fe
-    return "bd/ok/" + ("subst" if substituted else "plain") + ("/t%d" % q["transport"])
+    return ("toml-hostbits/" if cfg.get("toml") else "") + "bd/ok/" + ("subst" if substituted else "plain") + ("/t%d" % q["transport"])
 
 
 def run(ctx):
@@ -546,6 +587,7 @@ def run(ctx):
         cases.append(c)
     cases += weight_cases(rng, 240 if quick else 1200)
     cases += port_cases(rng)
+    cases += hostbits_cases(rng)
     cases += seq_cases(rng, 8 if quick else 60, 25, 1000)
     nfe = 150 if quick else 1500
     cases += [fe_case(rng, "api") for _ in range(nfe)] + [fe_case(rng, "dns") for _ in range(nfe)]
@@ -622,7 +664,8 @@ def run(ctx):
     ctx.sample({"case": cases[1], "observed": res[1]})
     ctx.require_kinds(["bd/ok/plain/t1", "bd/ok/plain/t4", "bd/ok/subst/t1", "bd/ok/subst/t4", "bd/err-other", "bd/err-noc2s", "bd/err-secret",
                        "bd/err-procfailed", "uni/sent", "uni/rejected", "st/err", "st/regs1", "st/regs2",
-                       "ctor-rejected", "seq/bd/ok/subst/t1", "seq/bd/ok/subst/t4", "api/bd/ok", "api/bd/rejected", "api/uni/sent", "api/uni/rejected", "dns/bd/ok", "dns/bd/rejected", "dns/uni/sent", "dns/uni/rejected"])
+                       "ctor-rejected", "toml-hostbits/bd/ok/subst/t1", "toml-hostbits/bd/ok/subst/t4", "toml-hostbits/bd/ok/plain/t1", "toml-hostbits/bd/ok/plain/t4",
+                       "seq/bd/ok/subst/t1", "seq/bd/ok/subst/t4", "api/bd/ok", "api/bd/rejected", "api/uni/sent", "api/uni/rejected", "dns/bd/ok", "dns/bd/rejected", "dns/uni/sent", "dns/uni/rejected"])
     mm = ctx.coq_mismatches("reg", HEADER, terms, "chk", shard=150, need_vo=["C12/Run.vo", "C12/Examples.vo"])
     if mm:
         ctx.cov["mismatches"] += len(mm)
